@@ -782,6 +782,15 @@ def _intify(o):
     return o
 
 
+def _close(a, b):
+    """same structure and kinds; reals within 2 units in the last place (libm pow vs NumPy's pow)"""
+    if isinstance(a, list) and isinstance(b, list):
+        if len(a) == 2 and len(b) == 2 and a[0] == "r" and b[0] == "r":
+            return abs(a[1] - b[1]) <= 2
+        return len(a) == len(b) and all(_close(x, y) for x, y in zip(a, b))
+    return a == b
+
+
 def _is_infnan(s):
     try:
         o = parse_sx(s)
@@ -797,7 +806,7 @@ def classify_pair(op, normal, stub):
     """a differing pair of results of a subexpression rooted at op, evaluated alone -> finding id or None"""
     if op == "^" and normal != "EXC" and stub != "EXC":
         try:
-            if sx(_intify(parse_sx(normal))) == sx(_intify(parse_sx(stub))):
+            if _close(_intify(parse_sx(normal)), _intify(parse_sx(stub))):
                 return "C05-power-kind"
         except Exception:
             return None
@@ -823,31 +832,41 @@ def run_diff(progs, backend, nproc=4):
     return out[False], out[True]
 
 
-def attribute(tree, binds, backend):
-    """evaluate every subexpression alone (fresh interpreter, final bindings) in both modes; the difference is a
-    known finding iff every innermost differing subexpression is one"""
-    subs = []
-    for t in subtrees(tree):
-        if t[0] in ("sym", "lit"):
+def attribute_all(items, backend):
+    """items = [(tree, binds)].  Evaluate every subexpression alone (fresh interpreter, the bindings in force) in
+    both modes, one batch; a difference is a known finding iff every innermost differing subexpression is one.
+    -> [(set of finding ids | None, reason)]"""
+    progs, index = [], []
+    for n, (tree, binds) in enumerate(items):
+        for t in subtrees(tree):
+            if t[0] in ("sym", "lit"):
+                continue
+            progs.append([(b, False) for b in binds] + [(text_of(t), True)])
+            index.append((n, t))
+    normal, stub = run_diff(progs, backend) if progs else ([], [])
+    per = {}
+    for (n, t), a, b in zip(index, normal, stub):
+        per.setdefault(n, []).append((t, a[0], b[0]))
+    out = []
+    for n in range(len(items)):
+        subs = per.get(n, [])
+        differing = [t for t, a, b in subs if a != b]
+        if not differing:
+            out.append((None, "no subexpression differs on its own (history / position dependent)"))
             continue
-        subs.append(t)
-    progs = [[(b, False) for b in binds] + [(text_of(t), True)] for t in subs]
-    normal, stub = run_diff(progs, backend, nproc=1)
-    differing = [t for t, a, b in zip(subs, normal, stub) if a != b]
-    if not differing:
-        return None, "no subexpression differs on its own (history / position dependent)"
-    ids = set()
-    for t, a, b in zip(subs, normal, stub):
-        if a == b:
-            continue
-        inner = [u for u in subtrees(t) if u is not t and u in differing]
-        if inner:
-            continue
-        fid = classify_pair(t[1] if t[0] == "dy" else None, a[0], b[0])
-        if fid is None:
-            return None, "subexpression %s: compiled %s, interpreter %s" % (text_of(t), a[0], b[0])
-        ids.add(fid)
-    return ids, None
+        ids, why = set(), None
+        for t, a, b in subs:
+            if a == b:
+                continue
+            if any(u is not t and u in differing for u in subtrees(t)):
+                continue
+            fid = classify_pair(t[1] if t[0] == "dy" else None, a, b)
+            if fid is None:
+                why = "subexpression %s: compiled %s, interpreter %s" % (text_of(t), a, b)
+                break
+            ids.add(fid)
+        out.append((None, why) if why else (ids, None))
+    return out
 
 
 def check_diff(chk, rng, tier, backend, scale=1):
@@ -856,8 +875,8 @@ def check_diff(chk, rng, tier, backend, scale=1):
         cases = cases[:: (3 if tier == "thorough" else 6)]
     progs = [program(t, pos, h) for t, pos, h in cases]
     normal, stub = run_diff(progs, backend)
-    bad = None
     seen = set()
+    differing = []
     for (t, pos, h), prog, a, b in zip(cases, progs, normal, stub):
         chk.count("evaluations", len(a))
         chk.count("diff_programs_" + backend)
@@ -870,26 +889,29 @@ def check_diff(chk, rng, tier, backend, scale=1):
         if a == b:
             continue
         chk.count("diff_differing_" + backend)
-        # final bindings at the first differing step
+        # the bindings in force at the first differing step
         step = [i for i, (x, y) in enumerate(zip(a, b)) if x != y][0]
-        binds, k = [], -1
+        cur, k = {}, -1
         for stmt, cap in prog:
             if cap:
                 k += 1
                 if k == step:
                     break
             elif stmt.startswith("a::") or stmt.startswith("b::"):
-                binds.append(stmt)
-        ids, why = attribute(t, binds, backend)
+                cur[stmt[0]] = stmt
+        differing.append((t, pos, prog, a, b, [cur[x] for x in sorted(cur)]))
+    bad = None
+    verdicts = attribute_all([(d[0], d[5]) for d in differing], backend)
+    for (t, pos, prog, a, b, binds), (ids, why) in zip(differing, verdicts):
         if ids:
             for fid in sorted(ids):
                 chk.count("diff_known_" + fid)
-                chk.finding(fid, "known finding reproduced", {"program": [s for s, _ in prog]})
+                chk.finding(fid, "compiled != interpreted: %s" % text_of(t), {"program": [s for s, _ in prog], "with_compiler": a, "compile_expr_stubbed": b})
             continue
         if bad is None:
             bad = {"kind": "compiled != interpreted", "backend": backend, "position": pos, "expression": text_of(t),
                    "program": [s for s, _ in prog], "with_compiler": a, "compile_expr_stubbed": b, "why_not_known": why}
-    chk.sample({"backend": backend, "programs": len(progs)}, limit=8)
+    chk.sample({"backend": backend, "programs": len(progs), "differing": len(differing)}, limit=8)
     return bad
 
 
